@@ -180,7 +180,7 @@ def big_index_pair():
 
 
 def run(ctx, rep, model=True):
-    n = 30 if ctx.quick else 200
+    n = 40 if ctx.quick else 240
     lay_pairs = [("mono", "mono"), ("mono", "sameperm"), ("perm", "same"), ("files", "scatter"), ("scatter", "files"),
                  ("scatter", "same"), ("perm", "perm"), ("mono", "files")]
     for i in range(n):
